@@ -480,14 +480,15 @@ theorem C01_const_float (u : ℝ) (fl : ℝ → ℝ) (hfl : Rounding u fl) (ops 
         (9 * u * constCum ops (secs D) ≤ 1 → i < n → at_ i ≤ D)) := by
   obtain ⟨hops, hD⟩ := (ConstConfig_valid_iff ops D).mp h
   have hD0 : 0 ≤ D := by omega
-  refine ⟨_, _, NewConst_fl_eq fl ops D hops, ?_, ?_, ?_⟩
-  · exact (const_count_ok hfl hops hD0).1
-  · exact (const_count_ok hfl hops hD0).2
+  obtain ⟨c, x, hnew, hcb, hxb⟩ := NewConst_fl_sem hfl ops D hops hD0
+  refine ⟨_, _, hnew, ?_, ?_, ?_⟩
+  · exact (const_count_ok hfl hops hD0 hcb).1
+  · exact (const_count_ok hfl hops hD0 hcb).2
   · intro hpos i hi
-    obtain ⟨h1, h2, h3⟩ := const_token_ok hfl hpos hi
+    obtain ⟨h1, h2, h3⟩ := const_token_ok hfl hpos (hxb hpos) hi
     refine ⟨h1, h2, h3, ?_⟩
     intro hsmall hin
-    exact const_token_le_D hfl hpos hD0 hsmall hi hin
+    exact const_token_le_D hfl hpos hD0 hcb (hxb hpos) hsmall hi hin
 
 /-- the same claim for const AND line: every accepted configuration, every rounding function, the Spec's tolerance
 δ(i) = 2⁻⁴⁶·(i + 1 + max(from,to)·D) in count space. Not proved for `from ≠ to` (the conjugate square-root form; derivation
